@@ -160,6 +160,10 @@ def _worker(pid, tier, seed, start, stride, deadline, max_runs, kind):
 
 
 def run_batch(pid, tier, seed, budget_s, kind='seeded', max_runs=10 ** 9):
+    import warnings
+    # the executor starts its own management thread before it forks the later workers; the workers
+    # never touch that thread's state (each runs _worker and returns an Agg)
+    warnings.filterwarnings('ignore', message='.*multi-threaded, use of fork.*', category=DeprecationWarning)
     ctx = multiprocessing.get_context('fork')
     deadline = time.time() + budget_s
     total = Agg()
